@@ -6,3 +6,5 @@ open CalmVerif.Props.C03
 #check @tables_valid
 #check @lr_sound
 #check @lr_deterministic
+#print axioms grammar_is_reviewed
+#check @grammar_is_reviewed
